@@ -134,7 +134,14 @@ var charClasses = map[string][]rune{
 
 var classNames = []string{"ascii", "mandated", "c0", "html", "linesep", "del", "bmp", "astral", "combining"}
 
+// texts that spell a JSON escape sequence literally (backslash, u, 2, 0, 2, 8 …): an encoder that post-processes its
+// own output, or un-escapes twice, confuses them with the character itself
+var escapeLookalikes = []string{`\u2028`, `\u2029`, `\ufffd`, `\u0000`, `\u003c`, `\ud800`, `\n`, `\"`, `\\`, `\/`, `\u00e9`, `&amp;`, `\x41`}
+
 func genStr(r *Rng, cls string) string {
+	if r.P(4) {
+		return pick(r, []string{"", "a", "abc "}) + pick(r, escapeLookalikes) + pick(r, []string{"", "z"})
+	}
 	var sb strings.Builder
 	for i := r.Range(0, 6); i > 0; i-- {
 		if r.P(70) {
